@@ -99,7 +99,7 @@ func runC15(c *Ctx) {
 	families := map[string][]string{
 		"test":  {"strings.Contains", "strings.ContainsRune", "strings.Index", "strings.IndexByte", "strings.IndexRune", "strings.Count", "internal/counter.IsStackCounter"},
 		"split": {"strings.Cut", "strings.Split", "strings.SplitN", "strings.SplitAfter", "strings.SplitAfterN", "strings.Index", "strings.IndexByte", "strings.IndexRune"},
-		"join":  {"strings.Join"},
+		"join":  {"strings.Join", "(*strings.Builder).WriteByte", "(*strings.Builder).WriteRune", "(*strings.Builder).WriteString"},
 	}
 	isNewline := func(v ssa.Value) (bool, string) {
 		if k, isC := constOf(v); isC {
@@ -128,6 +128,13 @@ func runC15(c *Ctx) {
 				sepSites++
 				if calleeName(cs.Common()) == "internal/counter.IsStackCounter" {
 					continue // the shared test; its own separator is checked at IsStackCounter
+				}
+				if strings.Contains(calleeName(cs.Common()), "strings.Builder).Write") {
+					// writing into a builder joins lines only where a CONSTANT is written between them
+					if _, isC := constOf(argsOf(cs)[1]); !isC {
+						n--
+						continue
+					}
 				}
 				ok, got := isNewline(argsOf(cs)[1])
 				r.Check("C15.separator-agreement", short(f.Name())+"/"+calleeName(cs.Common()), mod.Pos(cs.Pos()), ok, "separator must be the newline; got "+got)
